@@ -538,6 +538,44 @@ def run(tier, seed, replay=None):
                 else:
                     res.violation(what, {"signature": sig, "config_file": cname, "config_text": text})
             nontrivial.add(("empty-config", title))
+        # ---- "the nearest configuration file AT OR ABOVE the analysed path is the one used": a configuration file in the WORKING directory, which is
+        # neither the target nor one of its ancestors, must not move any effective value (the echoes of every section must equal those of the same
+        # command run from a directory without a configuration file) ------------------------------------------------------------------------------
+        hist["cwd_config_runs"] = 0
+        for cname, ctext in ((".pyscn.toml", "[lcom]\nlow_threshold = 4\n[complexity]\nlow_threshold = 3\n[cbo]\nmin_cbo = 2\n[dead_code]\nmin_severity = \"critical\"\n"),
+                             ("pyproject.toml", "[project]\nname = \"w\"\n\n[tool.pyscn.lcom]\nlow_threshold = 4\n[tool.pyscn.complexity]\nlow_threshold = 3\n[tool.pyscn.cbo]\nmin_cbo = 2\n[tool.pyscn.dead_code]\nmin_severity = \"critical\"\n")):
+            base = os.path.join(tmp, "cwdcfg_" + cname.strip(".").replace(".", "_"))
+            work, neutral, proj = os.path.join(base, "work"), os.path.join(base, "neutral"), os.path.join(base, "elsewhere", "proj")
+            for d_ in (work, neutral, proj):
+                os.makedirs(d_)
+            with open(os.path.join(work, cname), "w") as f:
+                f.write(ctext)
+            with open(os.path.join(proj, "m.py"), "w") as f:
+                f.write(REFERENCE_SRC if "REFERENCE_SRC" in globals() else "class A:\n    def a(self):\n        return self.x\n    def b(self):\n        return self.y\n\ndef f(a):\n    if a:\n        return 1\n    return 2\n")
+            for spelled in ("rel", "abs"):
+                runs = {}
+                for cwd_ in (work, neutral):
+                    tgt = proj if spelled == "abs" else os.path.relpath(proj, cwd_)
+                    rc_, d_, e_ = C.pyscn_json([tgt], cwd_, extra=["--select", "complexity,deadcode,cbo,lcom"])
+                    hist["cwd_config_runs"] += 1
+                    runs[cwd_] = d_
+                if runs[work] is None or runs[neutral] is None:
+                    res.violation("analyze produced no report in the working-directory configuration scenario", {"signature": {"kind": "cwd-config-no-report"}, "config_file": cname})
+                    continue
+                for sec, key in (("complexity", "Config"), ("lcom", "Config"), ("cbo", "Config"), ("dead_code", "config")):
+                    strip = lambda c_: {k_: v_ for k_, v_ in (c_ or {}).items() if k_ not in ("paths", "Paths", "config_path", "ConfigPath")}
+                    a_, b_ = strip((runs[work].get(sec) or {}).get(key)), strip((runs[neutral].get(sec) or {}).get(key))
+                    if a_ != b_:
+                        diff = sorted(k_ for k_ in set(a_) | set(b_) if a_.get(k_) != b_.get(k_))
+                        sig = {"kind": "cwd-config-leak", "section": sec, "file": cname}
+                        k = C.classify(PID, sig)
+                        what = ("C17: a %s in the WORKING directory (not at or above the analysed path %s) changes the effective %s configuration: %s"
+                                % (cname, spelled, sec, dict((k_, (b_.get(k_), a_.get(k_))) for k_ in diff)))
+                        if k:
+                            res.known_finding(k, "(%s)" % what[:300])
+                        else:
+                            res.violation(what, {"signature": sig, "config_file": cname, "config_text": ctext, "target": spelled, "differs": diff})
+                nontrivial.add(("cwd-config", cname, spelled))
     finally:
         shutil.rmtree(tmp, ignore_errors=True)
     if not ps.ok and not any(fi for _, _, fi in res.violations):
